@@ -1179,6 +1179,11 @@ func (x *Exec) runRegionP(st *State, fr *Frame, b *ssa.BasicBlock, prev *ssa.Bas
 				}
 				// phi1, phi2, ...: the loop-carried variables of the block by position (robust against renaming)
 				fr.names[fmt.Sprintf("phi%d", k+1)] = TV{phiv[k], phi.Type()}
+				if x.cur != nil && fr.top && x.cur.fn == fr.fn {
+					if n := x.cur.loopOrd(b); n > 0 {
+						fr.names[fmt.Sprintf("l%dphi%d", n, k+1)] = TV{phiv[k], phi.Type()} // qualified by the loop ordinal (nested loops)
+					}
+				}
 			}
 		}
 		phiBound = false
